@@ -1560,6 +1560,11 @@ package mq
 //@   ensures result == nil && lt != 0 && len(data) > $pend_1 ==> len(self.Payload()) == len(data) - $pend_1   #C03
 //@   ensures result == nil && lt != 0 && len(data) > $pend_1 ==> forall k in 0..len(data)-$pend_1: self.Payload()[k] == data[$pend_1+k]   #C03
 
+// CONNECT: the will message takes its QoS and retain flag from the connect flags (3.1.2.6, 3.1.2.7)
+//@ func (*Connect).UnmarshalBinary
+//@   ensures result == nil && (p.flags & 4) != 0 ==> p.will != nil && p.will.QoS() == ((uint8(p.flags) >> 3) & 3)   #C03
+//@   ensures result == nil && (p.flags & 4) != 0 ==> p.will.Retain() == ((p.flags & 32) != 0)                      #C03
+
 // CONNECT: the fixed-position fields around its two property sections are not under contract (their
 // obligations did not discharge within the time limit); only the steps of the first property section are.
 
